@@ -451,12 +451,29 @@ def _jsonable(x):
     if isinstance(x, (list, tuple, set, frozenset)):
         return [_jsonable(v) for v in x]
     if isinstance(x, bytes):
-        return {"_hex": x.hex()} if len(x) <= 4096 else {"_hex_prefix": x[:4096].hex(), "_len": len(x)}
+        if len(x) <= 4096:
+            return {"_hex": x.hex()}
+        if len(x) <= 8 * 2 ** 20:       # the whole input, compressed, so that the replay really replays
+            import base64
+            import zlib
+            return {"_zlib_b64": base64.b64encode(zlib.compress(x, 9)).decode("ascii"), "_len": len(x)}
+        return {"_hex_prefix": x[:4096].hex(), "_len": len(x)}
     if isinstance(x, str):
         return x.encode("utf-8", "backslashreplace").decode("utf-8")
     if isinstance(x, (int, float, bool)) or x is None:
         return x
     return repr(x)
+
+
+def replay_bytes(x):
+    """Inverse of _jsonable for bytes values stored in a replay file (None if only a prefix was kept)."""
+    if isinstance(x, dict) and "_hex" in x:
+        return bytes.fromhex(x["_hex"])
+    if isinstance(x, dict) and "_zlib_b64" in x:
+        import base64
+        import zlib
+        return zlib.decompress(base64.b64decode(x["_zlib_b64"]))
+    return None
 
 
 def extraction_directives() -> list[str]:
